@@ -137,25 +137,26 @@ def fclose (a b tol : Float) : Bool := (a - b).abs ≤ tol * (a.abs + b.abs) || 
 def handleRates (args : List String) : Verdict :=
   match args with
   | q :: rest =>
-    match takeFloats 21 rest with
-    | some ([pi, hbar, ev2hrt, e1, e2, l12, l21, rx, ry, rz, fx, fy, fz, kT, j2, k12, k21, k12b, k21b, direct, eq], []) =>
-      let charge : Float := if q == "-1" then Votca.Gen.Marcus.chargeElectronF else Votca.Gen.Marcus.chargeHoleF
-      let p : PairIn := { pi := pi, hbar := hbar, ev2hrt := ev2hrt, charge := charge, e1 := e1, e2 := e2, reorg12 := l12, reorg21 := l21,
+    match takeFloats 22 rest with
+    | some ([pi, hbar, ev2hrt, e1, e2, in12, in21, lo, rx, ry, rz, fx, fy, fz, kT, j2, k12, k21, k12b, k21b, direct, eq], []) =>
+      let charge : Float := if q == "-1" then Votca.Gen.Marcus.chargeElectronF else if q == "1" then Votca.Gen.Marcus.chargeHoleF else 0.0
+      let p : PairIn := { pi := pi, hbar := hbar, ev2hrt := ev2hrt, charge := charge, e1 := e1, e2 := e2, inner12 := in12, inner21 := in21, lambdaO := lo,
                           r := (rx, ry, rz), f := (fx, fy, fz), kT := kT, j2 := j2 }
       let (m12, m21) := pairRates p
-      let mdirect := Votca.Gen.Marcus.marcusrateF pi hbar ev2hrt j2 (e1 - e2) l12 kT
+      let mdirect := Votca.Gen.Marcus.marcusrateF pi hbar ev2hrt j2 (e1 - e2) (Votca.Gen.Marcus.reorg12F in12 lo) kT
       let agree := fclose m12 k12 1e-12 && fclose m21 k21 1e-12 && fclose mdirect direct 1e-12
-      -- property on the implementation's numbers
+      -- property on the implementation's numbers; the charge of the property: -1 electron, +1 hole, 0 for the neutral excitations
+      let qProp : Float := if q == "-1" then -1.0 else if q == "1" then 1.0 else 0.0
       let pos := k12 > 0 && k21 > 0
       let lin := fclose k12b (2 * k12) 1e-12 && fclose k21b (2 * k21) 1e-12
-      let equal := eq == 1.0
-      let dG := (e1 - e2) + charge * dot3 (rx, ry, rz) (fx, fy, fz)
-      let db := !equal || (k12 == 0 || k21 == 0) || fclose (Float.log (k12 / k21)) (dG / kT) 1e-9 || (Float.log (k12 / k21) - dG / kT).abs < 1e-9
+      let equal := eq == 1.0      -- equal forward / backward reorganisation energy of the pair (inner parts equal; the outer part is one number)
+      let dG := (e1 - e2) + qProp * dot3 (rx, ry, rz) (fx, fy, fz)
       let under := k12 == 0 || k21 == 0      -- underflow of exp for very unfavourable hops: not judged
-      let ok := under || (pos && lin && db)
+      let db := !equal || under || fclose (Float.log (k12 / k21)) (dG / kT) 1e-9 || (Float.log (k12 / k21) - dG / kT).abs < 1e-9
+      let ok := (under && !(k12 != k12) && !(k21 != k21)) || (pos && lin && db)
       { agree := agree, propOk := ok,
-        msg := if ok then s!"model {m12} {m21} {mdirect}" else s!"positive={pos} linearJ2={lin} detailedBalance={db}: k12={k12} k21={k21} ln(k12/k21)={Float.log (k12 / k21)} dG/kT={dG / kT}",
-        tag := s!"rates:{if equal then "equal-reorg" else "unequal-reorg"}:{if q == "-1" then "electron" else "hole"}{if under then ":underflow" else ""}" }
+        msg := if ok then s!"model {m12} {m21} {mdirect}" else s!"positive={pos} linearJ2={lin} detailedBalance={db}: k12={k12} k21={k21} ln(k12/k21)={Float.log (k12 / k21)} dG/kT={dG / kT} lambdaO={lo}",
+        tag := s!"rates:{if equal then "equal-reorg" else "unequal-reorg"}:{if q == "-1" then "electron" else if q == "1" then "hole" else if q == "0s" then "singlet" else "triplet"}{if lo != 0.0 then ":lambdaO" else ""}{if under then ":underflow" else ""}" }
     | _ => bad "rates fields"
   | _ => bad "rates arity"
 
